@@ -223,6 +223,14 @@ def rule_effect(ctx):
     ctx.ob('C18.effect', f'{dis.fq}', 'if self.enabled:' in full(dis.node) and 'self.dispatcher.remove(self)' in full(dis.node) and 'self.enabled = False' in full(dis.node),
            'disable removes the responder', dis.node, rf.module)
     ctx.ob('C18.effect', f'{fr.fq}', 'if self.enabled: self.disable()' in full(fr.node), 'free disables the responder', fr.node, rf.module)
+    # ... whatever the bookkeeping set says: the only condition on the way to disable() is the responder being enabled (a responder
+    # revived with enable() after a free is not in _all_func_proxies unless enable() put it back)
+    dcalls = [c for c in U.calls(fr.node) if U.is_self_attr(c.func, 'disable')]
+    tests = sorted({norm(p_.test) for c in dcalls for p_ in U.parent_chain(c) if isinstance(p_, ast.If)})
+    early = [norm(r)[:40] for r in walk_local(fr.node) if isinstance(r, (ast.Return, ast.Raise)) and dcalls and r.lineno < dcalls[0].lineno]
+    ctx.ob('C18.effect', f'{fr.fq}:disables-unconditionally', len(dcalls) == 1 and set(tests) <= {'self.enabled'} and not early,
+           f'free() reaches disable() only under {tests} (early exits {early}): a freed responder that was enabled again, a fired one-shot that was '
+           f're-armed, or a responder at CmdPeriod stays registered when the extra condition fails', fr.node, rf.module)
     os_ = rf.methods['one_shot']
     src = full(os_.node)
     ctx.ob('C18.effect', f'{os_.fq}', U.before(src, 'self.free()', 'fn.value(wrapped_func, *args)'),
@@ -521,6 +529,9 @@ def run(ctx):
 
 
 MUTANTS = [
+    dict(rule='C18.effect', name='free disables only responders still listed in the proxy set (seed C18-i)', file='sc3/base/responders.py',
+         old="            cls._all_func_proxies.remove(self)\n        if self.enabled:\n            self.disable()\n",
+         new="            cls._all_func_proxies.remove(self)\n            if self.enabled:\n                self.disable()\n"),
     dict(rule='C18.recv', name='any empty datagram ends the udp receiver (seed C18-g)', file='sc3/base/_oscinterface.py',
          old="                if not data and address == bind_addr:\n                    break", new="                if not data:\n                    break"),
     dict(rule='C18.effect', name='source matcher ignores the sender port', file='sc3/base/responders.py', count=2,
